@@ -594,3 +594,8 @@ MUTANTS += [
 # SESSION7b additions to the claim (round 8, DESIGN 12.6)
 CLAIM['technique'] += '; realloc-keep typestate (a failed zrealloc through a temporary never leaves the field dangling)'
 CLAIM['text'] += ' C03-k: every exit behind the failure edge of zrealloc(field) has reassigned the field.'
+
+
+# SESSION7c additions to the claim (round 9, DESIGN 12.7)
+CLAIM['technique'] += '; alloc-copy rule over the file parsers'
+CLAIM['text'] += ' C03-l: copies and stores into blocks allocated in the file parsers stay inside the allocation.'
